@@ -225,8 +225,21 @@ KNOWN += [
  ("KF-C01-34", "op.nodeRootHelperId", "node(id:) root: the helper __typename is dropped with the fields selected directly on Node, so the helper id of a type fragment is scrubbed or not depending on map iteration order",
   '{ node(id: "Human_1") { ... on Human { name } } }', None, "if"),
 ]
+def uworld2():
+    """union world whose members both have the composite field friend (service 0); age lives in service 1"""
+    U = "union Thing = Human | Planet\n"
+    w = ifworld2()
+    w["services"][0]["sdl"] = w["services"][0]["sdl"].replace("getBeing: Being", "getBeing: Being\n  getThings: [Thing!]!") + U
+    w["union_sdl"] = w["union_sdl"].replace("getBeing: Being", "getBeing: Being\n  getThings: [Thing!]!") + U
+    w["store"]["roots"]["Query.getThings"] = ["Human_1", "Planet_1"]
+    return w
+
+KNOWN += [
+ ("KF-C01-37", "op.sameCompositeKeyInFragmentsOfDifferentTypes", "the same composite response key selected in fragments on two member types with different sub-selections: the child steps of one fragment are applied to objects of the other type (extra or missing keys)",
+  '{ getThings { ... on Human { friend { age } } ... on Planet { friend { name } } } }', None, "u2"),
+]
 for kid, gate, title, q, v, wname in KNOWN:
-    w = {"if": ifworld, "if2": ifworld2, "u": uworld}[wname]() if wname else None
+    w = {"if": ifworld, "if2": ifworld2, "u": uworld, "u2": uworld2}[wname]() if wname else None
     c = exec_case("C01", "", q, v, w=w)
     c["title"] = title
     c["gate"] = gate
@@ -307,6 +320,7 @@ def fault_case(sig, query, faults, variables=None, w=None, bystander=False, conf
 S0, S1 = "http://svc-0.test/graphql", "http://svc-1.test/graphql"
 CASES["regress/KF-C09-1.json"] = fault_case("process-death", "{ getHumans { name phone } }", [{"url": S0, "query": "", "occurrence": 0, "pos": 0, "kind": "array-longer"}])
 CASES["regress/KF-C09-1b.json"] = fault_case("masked", "{ getHumans { name phone } }", [{"url": S1, "query": "", "occurrence": 0, "pos": 0, "kind": "array-shorter"}])
+CASES["regress/KF-C09-4.json"] = fault_case("envelope", "{ getHumans { name phone } }", [{"url": S1, "query": "", "occurrence": 0, "pos": 0, "kind": "errors-null-entry"}])
 CASES["regress/KF-C09-2.json"] = fault_case("masked", "{ getHumans { name } }", [{"url": S0, "query": "", "occurrence": 0, "pos": 0, "kind": "data-missing"}])
 CASES["regress/KF-C13-1.json"] = exec_case("C13", "data-varies", "{ __schema { t: types { n: name } d: directives { n: name } } }")
 CASES["regress/KF-C13-1.json"]["case"].update({"repeats": 15, "fresh": 8, "delays_us": [], "gomaxprocs": 4})
